@@ -637,9 +637,12 @@ pub fn gen_c10(
     let mut lines = reference_lines(rows, eff, valuewise, threshold);
     fix_empty_lines(&mut lines);
     let ncols = rows.first().map(|r| r.len()).unwrap_or(1);
+    // an engine may report no column types at all (the external engine never does): the sort modes
+    // work on the values all the same.  Decided by the data, so that a replay decides alike.
+    let typeless = perm_rows.iter().flatten().map(|v| v.len()).sum::<usize>() % 4 == 1;
     db.rules.push((
         "select * from t".into(),
-        vec![Ans::Rows { types: "T".repeat(ncols), rows: perm_rows.to_vec() }],
+        vec![Ans::Rows { types: if typeless { String::new() } else { "T".repeat(ncols) }, rows: perm_rows.to_vec() }],
     ));
     text.push_str(&format!(
         "query {}{}\nselect * from t\n----\n",
